@@ -496,6 +496,9 @@ def model_specs(draw, profile=None):
             data["q"][c["name"]] = {pop: {"t": [start], "v": [g.val_size()]} if g.coin(0.7) else {"a": g.val_size()} for pop in pops}
             if c["kind"] == "junc":
                 g.labels.add("junction:initialised")
+            if g.coin(p.get("comp_yfactor", 0.0)):
+                data["yf"][c["name"]] = {pop: g.pick([0.5, 2.0, 1.5]) for pop in g.subset(pops, min_size=1)}
+                g.labels.add("data:comp-y-factor")
     for name, d in pars.items():
         if not d["db"]:
             continue
